@@ -138,6 +138,16 @@ def gen_history(r, maxlen):
     return hist
 
 
+# reduced alphabet for the exhaustive enumeration of short histories
+SHORT_EVENTS = (
+    [{"e": "construct", "recipe": rec, "interp": interp}
+     for rec in (["var", "i", ["bint", 2]], ["tensor", 0, ["i", "j"]], ["binary", "add", 0, 1], ["reduce", "add", 0, "i"], ["unary", "neg", 1], ["op", ["GetsliceOp", [["slice", 0, 6, 2]]]], ["domain", ["reals", [2, 2]]])
+     for interp in ("reflect", "lazy")]
+    + [{"e": "drop", "h": 0}, {"e": "drop", "h": 1}, {"e": "gc", "gen": 2}, {"e": "realloc", "slot": 0},
+       {"e": "pickle", "h": 0, "interp": "reflect"}, {"e": "reinterpret", "h": 1}, {"e": "touch", "h": 0}]
+)
+
+
 def plan(seed, tier):
     nworlds = 8 if tier == "quick" else 16
     worlds = [W.make_world(seed, i) for i in range(nworlds)]
@@ -146,6 +156,20 @@ def plan(seed, tier):
     njobs = 64 if tier == "quick" else 640
     per = 150 if tier == "quick" else 600
     jobs = []
+    # every history of length <= 2 (quick) / <= 3 (thorough) over the reduced alphabet, plus a seeded sample one longer
+    n_ev = len(SHORT_EVENTS)
+    lengths = [1, 2] if tier == "quick" else [1, 2, 3]
+    total = sum(n_ev**k for k in lengths)
+    nchunks = 8 if tier == "quick" else 64
+    for c in range(nchunks):
+        jobs.append(
+            {
+                "world": worlds[c % nworlds],
+                "fn": "run_short_histories",
+                "payload": {"lengths": lengths, "chunk": c, "nchunks": nchunks, "extra": 60 if tier == "quick" else 400, "seed": "%s/c07x/%d" % (seed, c)},
+                "timeout": 1200,
+            }
+        )
     nrestart = 8 if tier == "quick" else 64
     for j in range(nrestart):
         jobs.append(
@@ -845,6 +869,27 @@ def run_histories(payload):
     return out
 
 
+def run_short_histories(payload):
+    """Exhaustive part: all histories of the given lengths over SHORT_EVENTS
+    (split into chunks), plus a seeded sample of histories one event longer."""
+    import itertools
+
+    hists = []
+    idx = 0
+    for k in payload["lengths"]:
+        for combo in itertools.product(range(len(SHORT_EVENTS)), repeat=k):
+            if idx % payload["nchunks"] == payload["chunk"]:
+                hists.append([SHORT_EVENTS[i] for i in combo])
+            idx += 1
+    r = W.rng(payload["seed"])
+    longer = max(payload["lengths"]) + 1
+    for _ in range(payload.get("extra", 0)):
+        hists.append([r.choice(SHORT_EVENTS) for _ in range(longer)])
+    out = run_histories({"seed": payload["seed"], "histories": hists, "count": len(hists), "maxlen": longer})
+    out["stats"]["enumerated_short_histories"] = len(hists) - payload.get("extra", 0)
+    return out
+
+
 ###############################################################################
 # RESTART: a crash/restart with only pickles surviving
 
@@ -1084,7 +1129,8 @@ def summarize(jobs, results, tier):
     return {
         "evaluations": tot.get("runs", 0),
         "distinct_nontrivial": len(digests),
-        "rule": "one evaluation = one history (3-30 events over <=12 live handles and 3 array slots) run in a fresh fork; "
+        "rule": "one evaluation = one history (3-30 events over <=12 live handles and 3 array slots) run in a fresh fork; every history "
+        "of length <=2 over a reduced 21-event alphabet is enumerated completely, the rest are seeded; "
         "events: construct under reflect/lazy/normalize/memoize/eager(leaf constructors), drop, gc(gen), re-allocate an array slot, "
         "pickle round trip, reinterpret under reflect, touch lazy properties, exception injected at the n-th internal call of a "
         "construct, collection injected at the n-th executed line of reflect/__getitem__/OpMeta.__call__/Memoize.interpret. "
@@ -1100,6 +1146,7 @@ def summarize(jobs, results, tier):
         "I5_pickle_identical": tot.get("pickle_identical", 0),
         "pickle_distinct_objects": tot.get("pickle_distinct", 0),
         "array_ids_recycled": tot.get("id_recycled", 0),
+        "short_histories_enumerated_completely": tot.get("enumerated_short_histories", 0),
         "restarts_into_a_new_interpreter": tot.get("restarts", 0),
         "survivors_unpickled_after_restart": tot.get("survivors", 0),
         "restart_identity_and_sharing_checks": tot.get("restart_identity_checks", 0) + tot.get("restart_sharing_checks", 0),
